@@ -1901,6 +1901,9 @@ class Parallel(Logger):
         try:
             self._iterating = True
             self._original_iterator = iterable
+            # No task is dispatched ahead of time in sequential mode (the
+            # attribute is read by print_progress).
+            self._pre_dispatch_amount = 0
             batch_size = self._get_batch_size()
 
             if batch_size != 1:
